@@ -28,13 +28,17 @@ Definition is_slash (c : ascii) := Ascii.eqb c ch_slash.
 Definition is_dash (c : ascii) := Ascii.eqb c ch_dash.
 Definition is_nl (c : ascii) := Ascii.eqb c ch_nl.
 
+(** which attribute of the task the arrayer's grouping key (JobDescription) starts with *)
+Inductive key_field := KFullname | KName.
+
 (** ** Configuration extracted from the source by translate/tr_scratch.py *)
 Record cfg := {
   f_input : str; f_output : str; f_error : str; f_hashes : str;   (* SCRATCH_INPUT/OUTPUT/ERROR/HASHES *)
   d_jobs : str; d_array : str;                                   (* "jobs", "array_jobs" path components *)
   arr_out_elem : str; arr_err_elem : str;   (* per-job file names listed in the array output / error spec files *)
   arr_suffix : str;                                              (* ARRAY_JOB_SUFFIX *)
-  env_vars : list str                                            (* lookup order of get_job_array_index *)
+  env_vars : list str;                                           (* lookup order of get_job_array_index *)
+  key_task : key_field                                           (* JobDescription.task_name *)
 }.
 
 Definition shipped : cfg := {|
@@ -42,8 +46,27 @@ Definition shipped : cfg := {|
   d_jobs := lit "jobs"; d_array := lit "array_jobs";
   arr_out_elem := lit "output"; arr_err_elem := lit "error";
   arr_suffix := lit "array";
-  env_vars := [lit "AWS_BATCH_JOB_ARRAY_INDEX"; lit "JOB_COMPLETION_INDEX"; lit "BATCH_TASK_INDEX"]
+  env_vars := [lit "AWS_BATCH_JOB_ARRAY_INDEX"; lit "JOB_COMPLETION_INDEX"; lit "BATCH_TASK_INDEX"];
+  key_task := KFullname
 |}.
+
+(** the variant in which jobs are grouped by the short task name only *)
+Definition by_name (c : cfg) : cfg := {|
+  f_input := f_input c; f_output := f_output c; f_error := f_error c; f_hashes := f_hashes c;
+  d_jobs := d_jobs c; d_array := d_array c; arr_out_elem := arr_out_elem c; arr_err_elem := arr_err_elem c;
+  arr_suffix := arr_suffix c; env_vars := env_vars c; key_task := KName |}.
+
+(** ** Array grouping (job_array.py JobDescription / JobArrayer, aws_batch.py _submit_array_job) *)
+Record tinfo := { t_ns : str; t_name : str; t_opts : str }.
+  (* task namespace ([] if none), short name, str(sorted(job.get_options().items())) *)
+Definition ch_dot : ascii := "."%char.
+Definition ch_space : ascii := " "%char.
+(* Task.fullname *)
+Definition fullname (t : tinfo) : str :=
+  match t_ns t with [] => t_name t | ns => ns ++ ch_dot :: t_name t end.
+(* JobDescription.key = task_name + " " + str(sorted(options.items())) *)
+Definition descr_key (c : cfg) (t : tinfo) : str :=
+  (match key_task c with KFullname => fullname t | KName => t_name t end) ++ ch_space :: t_opts t.
 
 (** ** posixpath.join and the scratch paths *)
 Definition pjoin (a b : str) : str :=
@@ -95,6 +118,15 @@ Fixpoint re_hash_go (x : str) (acc : option str) : option str :=
 
 Definition strip_suffix (x suf : str) : str :=
   if ends_with x suf then firstn (List.length x - List.length suf) x else x.
+
+(* JobArrayer.pending[descr]: the jobs added under one description, in arrival order; each array
+   (or chunk of max_array_size) is a sublist of it *)
+Definition group_of {J : Type} (c : cfg) (info : J -> tinfo) (pending : list J) (k : str) : list J :=
+  filter (fun j => bytes_eq (descr_key c (info j)) k) pending.
+(* _submit_array_job -> submit_task -> get_oneshot_command: ONE command for the whole array, naming
+   jobs[0].task ("All jobs identical so just grab the first one"); oneshot looks the task up by it *)
+Definition array_command_task {J : Type} (info : J -> tinfo) (group : list J) : option str :=
+  match group with [] => None | j :: _ => Some (fullname (info j)) end.
 
 Definition hash_of_job_name (c : cfg) (name : str) : option str :=
   re_hash_go (strip_suffix name (ch_dash :: arr_suffix c)) None.
